@@ -922,7 +922,9 @@ C12_Declined == [][\A p \in 1..NP : (pr[p].st = "declined" /\ pr'[p].st = "decli
                      /\ {n \in DOMAIN refs' : Kind(n) \in {"w", "qw"} /\ n[2] = p} \subseteq {n \in DOMAIN refs : Kind(n) \in {"w", "qw"} /\ n[2] = p}
                      /\ \A n \in DestNames : DestMoved(n) =>
                            (SrcN(p) \in DOMAIN refs => (Leq(G', refs[SrcN(p)], refs'[n]) => Leq(G, refs[SrcN(p)], refs[n])))]_vars
-C19_DeclineCleans == [][(JobStatusNow = "PullRequestDeclined" /\ JobKindNow \in {"EvalPR", "EvalChild"}) =>
+JobEndsWith(status) == IF Atomic THEN last'[1] = "job" /\ last'[4] = status
+                       ELSE job.on /\ ~ job'.on /\ job.status = status
+C19_DeclineCleans == [][(JobEndsWith("PullRequestDeclined") /\ JobKindNow \in {"EvalPR", "EvalChild"}) =>
                           LET p == JobPrNow
                               T == Targets(pr[p].dst)
                           IN \A j \in DOMAIN T : WN(p, T[j]) \notin DOMAIN refs' /\ <<p, T[j]>> \notin child']_vars
